@@ -4,7 +4,7 @@ import ast
 from ..core import AnalysisError, TermBuilder, call_arg, call_name, is_call, show, walk_term
 from ..ctx import flatten_cond, walk_path, _as_load
 from ..finite import UNKNOWN, feval
-from ..kinds import ALPHA, find_k_term
+from ..kinds import ALPHA, find_k_term, is_four
 from .repair import affine, aff_eq, aff_show
 from .graph import strip_int, is_pow4k
 from .graph2 import acc_stores
@@ -170,7 +170,10 @@ def r_conv(ctx):
         # the empty sequence has value 0: no element of the sequence is read by position outside a length / emptiness guard
         bad = []
         for nd_, x in ctx.all_subterms(f):
-            if x[0] == 'sub' and x[1] == ('v', seqparam, 'P') and x[2][0] == 'c' and isinstance(x[2][1], int):
+            derived = x[0] == 'sub' and x[2][0] == 'c' and isinstance(x[2][1], int) and x[1] != ('v', seqparam, 'P') and \
+                (is_call(x[1], 'builtins.list', 'builtins.tuple', 'numpy.array') or x[1][0] == 'comp') and \
+                any(y == ('v', seqparam, 'P') for y in walk_term(x[1]))
+            if (x[0] == 'sub' and x[1] == ('v', seqparam, 'P') and x[2][0] == 'c' and isinstance(x[2][1], int)) or derived:
                 guarded = any(any(y == ('v', seqparam, 'P') for y in walk_term(a)) for a, p_ in ctx.conds(f, nd_))
                 if not guarded and not nd_.loops:
                     bad.append((nd_.lineno, show(x)))
@@ -413,6 +416,28 @@ def r_conv(ctx):
         run.floor('R-CONV', 'division loops of %s' % name, n, 2)
         # dispatch raise
         rs = [nd for nd in f.stmts(ast.Raise)]
+        width_ = ('v', 'bit_length' if name == 'number_to_bit' else 'dna_length', 'P')
+        for r in rs:
+            about_width = [a for a, p in ctx.conds(f, r) if any(x == width_ for x in walk_term(a))]
+            if about_width:
+                run.refute('R-CONV', f, 'no-raise-on-the-width', r.lineno,
+                           '%s raises when %s: every width is rendered (width 0 gives the empty result for the number 0, which '
+                           'set_vt needs for a check of one symbol)' % (name, show(about_width[0])[:50]),
+                           inputs='width 0 (set_vt with vt_length = 1), width below the number of digits')
+        for nd_ in f.nodes:
+            if nd_.loops or nd_.kind != 'stmt':
+                continue
+            for d in nd_.defs:
+                if d.kind == 'mutate' and isinstance(d.extra, ast.Attribute) and d.extra.attr in ('append', 'insert') and d.value is not None:
+                    t_ = f.term(d.value, nd_)
+                    arg_ = t_[2][-1] if t_[2] else None
+                    zero_sym = arg_ in (('c', 0), ('c', 'A'), ('sub', ('c', ALPHA), ('c', 0)))
+                    empt = any(is_call(x, 'builtins.len') or x == ('list',) or x == ('c', '') for a, p in ctx.conds(f, nd_) for x in walk_term(a))
+                    if zero_sym and empt:
+                        run.refute('R-CONV', f, 'zero-renders-as-no-digit', nd_.lineno,
+                                   '%s puts a zero symbol into an empty digit list: the number 0 renders as one digit, so a width of 0 '
+                                   'gives a non-empty result and set_vt(strand, 1) returns two symbols' % name,
+                                   inputs='the number 0 with width 0 (check length 1)')
         run.check(len(rs) >= 1 and all(_exc_type(f, r) == 'ValueError' for r in rs), 'R-CONV', f, 'dispatch-else-raises',
                   rs[0].lineno if rs else f.node.lineno, 'unknown type ends in ValueError',
                   '%s does not end its type dispatch with ValueError' % name, nontrivial=False, inputs='neither str nor int')
@@ -495,20 +520,34 @@ def r_shuf(ctx):
     if len(rets) != 1 or not isinstance(rets[0].stmt.value, ast.Name):
         raise AnalysisError("rule R-SHUF lost its anchor: return of the table")
     tab = rets[0].stmt.value.id
-    allocs = [TermBuilder(f, d.node).def_term(d.id) for d in f.defs if d.name == tab and d.kind == 'assign']
+    # names bound to the same table object (t = helper_result; helper_result = buffer; ...)
+    tabs = {tab}
+    grew = True
+    while grew:
+        grew = False
+        for d in f.defs:
+            if d.name in tabs and d.kind == 'assign' and isinstance(d.value, ast.Name) and not d.path and d.value.id not in tabs \
+                    and d.value.id in f.locals:
+                tabs.add(d.value.id)
+                grew = True
+    allocs = [TermBuilder(f, d.node).def_term(d.id) for d in f.defs if d.name in tabs and d.kind == 'assign'
+              and not (isinstance(d.value, ast.Name) and d.value.id in tabs)]
     ok = False
+    sized = []
     for a in allocs:
         if a is not None and is_call(a, 'numpy.zeros'):
             shape = call_arg(a, 0, 'shape')
-            if shape is not None and shape[0] == 'tuple' and len(shape) == 3 and is_pow4k(shape[1], K) and shape[2] == ('c', 4):
-                ok = True
-    run.check(ok, 'R-SHUF', f, 'shape', f.node.lineno, 'zeros(4^K x 4)',
-              'the table is allocated as %s, not zeros(shape=(4^K, 4))' % [show(a)[:60] for a in allocs if a], inputs='every k')
+            if shape is not None and shape[0] == 'tuple' and len(shape) == 3:
+                sized.append(shape)
+                if is_pow4k(shape[1], K) and is_four(shape[2]):
+                    ok = True
+    _tri(run, ok, bool(sized) and not ok, 'R-SHUF', f, 'shape', f.node.lineno, 'zeros(4^K x 4)',
+         'the table is allocated with shape %s, not (4^K, 4)' % [show(s_)[:60] for s_ in sized], inputs='every k')
     # stores
     cols, rowstores, other = {}, [], []
     for nd in f.nodes:
         for d in nd.defs:
-            if d.kind == 'mutate' and d.name == tab and isinstance(d.extra, ast.Subscript) and isinstance(nd.stmt, ast.Assign):
+            if d.kind == 'mutate' and d.name in tabs and isinstance(d.extra, ast.Subscript) and isinstance(nd.stmt, ast.Assign):
                 tg = f.term(_as_load(d.extra), nd)
                 val = f.term(nd.stmt.value, nd)
                 idx = tg[2] if tg[0] == 'sub' else None
@@ -537,7 +576,7 @@ def r_shuf(ctx):
     # broadcast forms: table[:] = range(4) / arange(4) / [0, 1, 2, 3]
     for nd in f.nodes:
         for d in nd.defs:
-            if d.kind == 'mutate' and d.name == tab and isinstance(d.extra, ast.Subscript) and isinstance(nd.stmt, ast.Assign):
+            if d.kind == 'mutate' and d.name in tabs and isinstance(d.extra, ast.Subscript) and isinstance(nd.stmt, ast.Assign):
                 tg = f.term(_as_load(d.extra), nd)
                 val = f.term(nd.stmt.value, nd)
                 if tg[0] == 'sub' and tg[2] in (('slice', NONE, NONE, NONE), ('tuple', ('slice', NONE, NONE, NONE), ('slice', NONE, NONE, NONE))):
@@ -648,6 +687,17 @@ def r_pair(ctx):
         return
     u, j = stores[0][2][1][2], stores[0][2][2]
     lm = ('v', 'latter_map', 'P')
+    # a call that returns has removed an arc: every return is dominated by the store
+    dom0 = f.dominators()
+    for r_ in f.stmts(ast.Return):
+        if stores[0][0].id not in dom0[r_.id]:
+            run.refute('R-PAIR', f, 'return-only-after-removal', r_.lineno,
+                       'remove_nasty_arc can return (line %d) without having cleared an accessor entry: a returning call that '
+                       'removes no arc (where the call used to raise because nothing is left to remove)' % r_.lineno,
+                       inputs='graphs whose scores are all zero; the end of a removal sequence')
+            break
+    else:
+        run.ok('R-PAIR', f, 'return-only-after-removal', f.node.lineno, 'every return follows the removal')
     dels = []
     for nd in f.stmts(ast.Delete):
         for t in nd.stmt.targets:
@@ -799,19 +849,62 @@ def r_pair(ctx):
                     while is_call(src, 'builtins.zip', 'builtins.enumerate', 'builtins.list') and src[2]:
                         src = src[2][0]
                     okcol = src == ('sub', ('v', 'latter_map', 'P'), row)
-                wit = not (col[0] == 'bin' and col[1] == '%')       # a column that is not `successor mod 4` at all
+                opaque = any(x[0] == 'call' and (x[1][0] == 'v' or (x[1][0] == 'g' and (x[1][1].startswith('?.') or
+                                                                             ctx.p.resolve_func(x[1][1]) is not None)))
+                             for x in walk_term(col))
+                wit = not any(x[0] == 'bin' and x[1] == '%' for x in walk_term(col)) and not opaque   # no `successor mod 4` at all
                 _tri(run, okrow and okcol, okrow and wit, 'R-PAIR', g, 'score-store#%d' % n, nd.lineno,
                           'score stored at (key, successor of that key mod 4)',
                           'a score is stored at [%s, %s]: not (a key of the latter map, one of its successors mod 4), so '
                           'scores can be positive where no arc exists' % (show(row)[:40], show(col)[:60]),
                           inputs='every graph')
+    # the indel terms are switched by their own flag only, and each flag switches a store
+    ins, dele = ('v', 'has_insertion', 'P'), ('v', 'has_deletion', 'P')
+    gated = {ins: 0, dele: 0}
+    for nd in g.nodes:
+        for d in nd.defs:
+            if d.kind == 'mutate' and isinstance(d.extra, ast.Subscript) and isinstance(nd.stmt, (ast.AugAssign, ast.Assign)):
+                tg = g.term(_as_load(d.extra), nd)
+                if not (tg[0] == 'sub' and tg[1][0] == 'sub') or tg[1][1][0] != 'v' or tg[1][1][1] == 'latter_map':
+                    continue
+                conds_ = ctx.conds(g, nd)
+                for flag, other, nm in ((ins, dele, 'insertion'), (dele, ins, 'deletion')):
+                    if any(a == flag and p for a, p in conds_):
+                        gated[flag] += 1
+                        if any(a != other and any(x == other for x in walk_term(a)) for a, p in conds_ if a != flag):
+                            run.refute('R-PAIR', g, '%s-term-switched-by-its-own-flag' % nm, nd.lineno,
+                                       'the %s term of the score is added under a condition that also involves the other indel flag: '
+                                       'with exactly one of has_insertion / has_deletion set the scores differ from the sum of the '
+                                       'requested terms, and a non-maximal arc is removed' % nm,
+                                       inputs='has_insertion != has_deletion')
+                # repeated positions in one fancy-indexed `+=` are applied once, not accumulated
+                col_ = tg[2]
+                if isinstance(nd.stmt, ast.AugAssign) and col_[0] == 'sub' and col_[2][0] == 'v' and isinstance(col_[2][2], tuple) and \
+                        any(g.defs[i].kind == 'mutate' or (g.defs[i].kind == 'aug') for i in col_[2][2]):
+                    run.refute('R-PAIR', g, 'scores-accumulated-per-arc', nd.lineno,
+                               'scores are added with one fancy-indexed `+=` over the position list %s: numpy applies a repeated '
+                               'position once, so an arc that takes part in several pairs receives only one of its contributions'
+                               % show(col_[2])[:30], inputs='vertices with three or four successors')
+    for flag, nm in ((ins, 'has_insertion'), (dele, 'has_deletion')):
+        used = any(any(x == flag for x in walk_term(g.term(n_.ast, n_))) for n_ in g.nodes if n_.kind in ('test', 'while') and n_.ast is not None)
+        if gated[flag] == 0 and used:
+            run.refute('R-PAIR', g, 'flag-switches-a-store:%s' % nm, g.node.lineno,
+                       '%s is read but no score store is conditioned on it: its term is added (or its branches are merged into '
+                       'another term) whatever the flag says' % nm, inputs='%s=False' % nm)
+        elif gated[flag] == 0:
+            run.undecided('R-PAIR', g, 'flag-switches-a-store:%s' % nm, g.node.lineno, '%s gates no store' % nm)
+        else:
+            run.ok('R-PAIR', g, 'flag-switches-a-store:%s' % nm, g.node.lineno, '%s switches %d store(s)' % (nm, gated[flag]))
     run.floor('R-PAIR', 'score stores', n, 4)
     allocs = [TermBuilder(g, d.node).def_term(d.id) for d in g.defs if d.kind == 'assign']
     oka = any(a is not None and is_call(a, 'numpy.zeros') and call_arg(a, 0, 'shape') is not None and
               call_arg(a, 0, 'shape')[0] == 'tuple' and len(call_arg(a, 0, 'shape')) == 3 and
               is_pow4k(call_arg(a, 0, 'shape')[1], K) and call_arg(a, 0, 'shape')[2] == ('c', 4) for a in allocs)
-    run.check(oka, 'R-PAIR', g, 'scores-shape', g.node.lineno, 'scores have the accessor shape 4^K x 4',
-              'the score array is not allocated as zeros(4^K x 4)', inputs='every k')
+    zero_allocs = [a for a in allocs if a is not None and is_call(a, 'numpy.zeros', 'numpy.zeros_like', 'numpy.full', 'numpy.empty')]
+    _tri(run, oka, bool(zero_allocs) and not oka and all(call_arg(a, 0, 'shape') is not None and call_arg(a, 0, 'shape')[0] == 'tuple'
+                                                         for a in zero_allocs),
+         'R-PAIR', g, 'scores-shape', g.node.lineno, 'scores have the accessor shape 4^K x 4',
+         'the score array is allocated as %s, not zeros(4^K x 4)' % [show(a)[:50] for a in zero_allocs], inputs='every k')
 
 
 # ----------------------------------------------------------------------------------------------
@@ -903,19 +996,47 @@ def r_max(ctx):
     okc = is_call(c0, 'numpy.argmax') and len(c0[2]) == 1 and c0[2][0][0] == 'sub' and strip_int(c0[2][0][2]) == strip_int(row)
     if okc:
         scores = c0[2][0][1]
-    run.check(okc, 'R-MAX', f, 'column=argmax(scores[row])', nd.lineno, 'column is the argmax of the chosen row',
-              'the cleared column is %s, not argmax(scores[row]) of the chosen row' % show(col)[:80], inputs='every call')
-    okscore = scores is not None and call_name(scores) is not None and call_name(scores).endswith('.calculate_intersection_score') \
-        and call_arg(scores, 0, 'latter_map') == ('v', 'latter_map', 'P')
-    run.check(bool(okscore), 'R-MAX', f, 'scores-of-this-graph', nd.lineno, 'scores come from calculate_intersection_score(latter_map, ...)',
-              'the scores the removed arc is chosen from are %s' % (show(scores)[:80] if scores else None), inputs='every call')
+    witc = ((c0[0] == 'call' and c0[1][0] == 'g' and c0[1][1].split('.')[-1] in ('argmin', 'nanargmin')) or
+            (is_call(c0, 'numpy.argmax') and len(c0[2]) == 1 and c0[2][0][0] == 'un' and c0[2][0][1] == '-') or
+            (is_call(c0, 'numpy.argmax') and len(c0[2]) == 1 and c0[2][0][0] == 'sub' and
+                                            strip_int(c0[2][0][2]) != strip_int(row) and c0[2][0][2][0] in ('v', 'iter', 'sub', 'c')))
+    _tri(run, okc, witc, 'R-MAX', f, 'column=argmax(scores[row])', nd.lineno, 'column is the argmax of the chosen row',
+         'the cleared column is %s, not argmax(scores[row]) of the chosen row' % show(col)[:80], inputs='every call')
+    is_score_call = scores is not None and call_name(scores) is not None and call_name(scores).endswith('.calculate_intersection_score')
+    okscore = is_score_call and call_arg(scores, 0, 'latter_map') == ('v', 'latter_map', 'P')
+    _tri(run, bool(okscore), is_score_call and not okscore, 'R-MAX', f, 'scores-of-this-graph', nd.lineno,
+         'scores come from calculate_intersection_score(latter_map, ...)',
+         'the scores the removed arc is chosen from are %s' % (show(scores)[:80] if scores else None), inputs='every call')
     # row drawn from the rows holding the global maximum
     okr = False
+
+    def is_global_max(b):
+        return scores is not None and is_call(b, 'numpy.max', 'numpy.amax') and b[2] == (scores,) and not b[3]
     for x in walk_term(row):
         if x[0] == 'cmp' and x[1] == '==' and scores is not None:
             for a, b in ((x[2], x[3]), (x[3], x[2])):
-                if a == scores and is_call(b, 'numpy.max', 'numpy.amax') and b[2] == (scores,) and not b[3]:
+                if a == scores and is_global_max(b):
                     okr = True
-    run.check(okr, 'R-MAX', f, 'row-among-global-maxima', nd.lineno, 'row is taken from where(scores == max(scores))',
-              'the row of the removed arc (%s) is not drawn from the positions where the score equals the global maximum'
-              % show(row)[:100], inputs='graphs whose maximum is not in the chosen row')
+    # search form: the row is a loop variable kept only when its own maximum / some entry equals the global maximum
+    r0 = strip_int(row)
+    if not okr and r0[0] in ('iter', 'v', 'idx') and scores is not None:
+        conds_ = list(ctx.conds(f, nd))
+        alts = f.alternatives(r0) if r0[0] == 'v' else None
+        for d_, t_ in (alts or []):
+            conds_ += list(ctx.conds(f, f.nodes[d_.node]))
+        for atom, pol in conds_:
+            for x in walk_term(atom):
+                if x[0] == 'cmp' and x[1] == '==' and pol:
+                    for a, b in ((x[2], x[3]), (x[3], x[2])):
+                        if is_global_max(b) and any(y[0] == 'sub' and y[1] == scores for y in walk_term(a)):
+                            okr = True
+    witr = any(is_call(x, 'numpy.min', 'numpy.amin', 'numpy.argmin') for x in walk_term(row))
+    # the row is selected by another predicate on the scores (scores != 0, scores > c, ...)
+    for x in walk_term(row):
+        if is_call(x, 'numpy.where', 'numpy.nonzero', 'numpy.flatnonzero', 'numpy.argwhere') and x[2]:
+            sel = x[2][0]
+            if scores is not None and any(y == scores for y in walk_term(sel)) and not any(is_global_max(y) for y in walk_term(sel)):
+                witr = True
+    _tri(run, okr, witr, 'R-MAX', f, 'row-among-global-maxima', nd.lineno, 'row is taken from where(scores == max(scores))',
+         'the row of the removed arc (%s) is not drawn from the positions where the score equals the global maximum'
+         % show(row)[:100], inputs='graphs whose maximum is not in the chosen row')
